@@ -374,6 +374,10 @@ def construct_cases():
     add('prime on LET-defined arithmetic operator', dP, ('let', [('f', A('+', V('x'), N(1)))], cmp_('>', ('aprime', ('ref', 'f')), V('x'))))
     add('prime on LET-defined Boolean operator', dP, ('let', [('s', cmp_('<', V('x'), V('y')))], bn('and', ('bprime', ('bref', 's')), ('not', ('bref', 's')))))
     add('prime around a LET', dP, ('bprime', ('let', [('g', A('-', V('x'), V('y')))], cmp_('<=', ('ref', 'g'), N(1)))))
+    dQ = dict(dP, z=(-3, -1), **{"z'": (-3, -1)})
+    add('prime on an existential quantifier', dQ, ('bprime', ('exists', ['y'], cmp_('>', V('y'), V('x')))))
+    add('prime on nested quantifiers', dQ, ('bprime', ('forall', ['y'], ('exists', ['z'], cmp_('<=', A('+', V('y'), V('z')), V('x'))))))
+    add('prime on a Boolean quantifier', dQ, bn('and', ('bprime', ('exists', ['a'], bn('equiv', B('a'), cmp_('<', V('x'), N(3))))), cmp_('>', V('x'), N(1))))
     add('prime on a compound expression', dP, cmp_('=', ('aprime', A('+', V('x'), V('y'))), A('*', V('x'), N(2))))
     add('prime on registered operator', dP, ('let', [('small', cmp_('<', V('x'), N(3)))], bn('and', ('bprime', ('bref', 'small')), ('not', ('bref', 'small')))), mode='define')
     add('primes', dP, bn('and', cmp_('=', V('x', True), A('+', V('x'), N(1))), bn('equiv', B('a', True), ('not', B('a')))))
@@ -455,7 +459,8 @@ def random_cases(n, seed, maxw, depth):
                 return ('in', ('var', v, False), lo, lo + rnd.randint(-1, 8))
             if r < 0.96 and allowq:
                 qv = rnd.sample(ints + bools, rnd.choice([1, 1, 2]))
-                return (rnd.choice(['forall', 'exists']), qv, gen_b(d - 1, refs, brefs, True))
+                qn = (rnd.choice(['forall', 'exists']), qv, gen_b(d - 1, refs, brefs, True))
+                return ('bprime', qn) if primed and rnd.random() < 0.3 else qn
             if allowq:
                 if rnd.random() < 0.5:
                     nm = f'd{len(refs)}'
